@@ -338,6 +338,9 @@ def main(pid, tier, seed):
         os.symlink(d, os.path.join(rcopy, 'Rules', 'h%d' % k))
         for mode in ('honeywords', 'random_walk'):
             jobs.append((k, mode, 25, desc))
+            if k == 0:
+                jobs.append((k, mode, 1, desc))          # the smallest legal limit, and the next one
+                jobs.append((k, mode, 2, desc))
 
     # the honeyword modes have no session to restore: --session / --load must not change what is drawn - neither when the
     # named session does not exist nor when an unrelated probability-order session (--all_lower) left its save file there
